@@ -301,7 +301,9 @@ func genCase(t *rapid.T) Case {
 	f := interp.Flags(flags)
 	var p sgen.Program
 	var lc *sgen.LockCtx
-	switch rapid.IntRange(0, 12).Draw(t, "level") {
+	switch rapid.IntRange(0, 13).Draw(t, "level") {
+	case 13:
+		p = sgen.DegenerateP2SH(t, f)
 	case 11:
 		p = sgen.P2SHLookalike(t, f)
 	case 12:
